@@ -10,7 +10,7 @@ from .pyast import Unrecognised, clean, cstr, unparse
 
 class Ctx:
     def __init__(self, attr_vars=(), enum_prefixes=(), identity_calls=(), attr_targets=(), prims=None,
-                 objects=False, consts=None, tables=(), procs=None, record_classes=()):
+                 objects=False, consts=None, tables=(), procs=None, record_classes=(), str_consts=None, skip_stmts=()):
         self.attr_vars = set(attr_vars) | set(attr_targets)  # source texts treated as variables, e.g. "self.prefix"
         self.attr_targets = set(attr_targets)    # attributes the method may assign / append to, e.g. "self.negative_option_strings"
         self.enum_prefixes = tuple(enum_prefixes)  # "DashVariant." ... : enum members become string constants
@@ -22,6 +22,8 @@ class Ctx:
         self.tables = set(tables)                # method calls read as uninterpreted pure functions given by a table (ECallTable)
         self.procs = dict(procs or {})           # callee name -> (FunctionDef, Ctx, self argument name or None): dumped procedures
         self.record_classes = set(record_classes)
+        self.str_consts = dict(str_consts or {})  # module-level string constants by name, e.g. DC_TYPE_KEY -> "_type_" (checked by the caller)
+        self.skip_stmts = set(skip_stmts)         # exact source texts of statements the caller declares to be no-ops of the model
         self.views = {}                          # X -> Y after `X = vars(Y)`: X is the live dict view of the object Y (ONE variable)
         self.local_defs = {}
         self.assigned = []
@@ -177,6 +179,8 @@ def expr4(n, c: Ctx, subst, src):
         return None
     if src in c.consts:
         return f"(EConst {cstr(c.consts[src])})"
+    if isinstance(n, ast.Name) and n.id in c.str_consts and n.id not in subst:
+        return f"(EStr {cstr(c.str_consts[n.id])})"
     if isinstance(n, ast.Name) and n.id in c.views:
         raise Unrecognised(f"the view {n.id} = vars({c.views[n.id]}) is used as a value (only .pop, `in` and Namespace(**view) are read)")
     if isinstance(n, ast.Compare) and len(n.ops) == 1:
@@ -203,6 +207,23 @@ def expr4(n, c: Ctx, subst, src):
         a = n.args
         if fsrc in c.tables and len(a) == 1 and not n.keywords and isinstance(n.func, ast.Attribute):
             return f"(ECallTable (EAttr {expr(n.func.value, c, subst)} {cstr(n.func.attr)}) {expr(a[0], c, subst)})"
+        if fsrc in c.tables and len(a) == 1 and not n.keywords and isinstance(n.func, ast.Name) and n.func.id not in subst:
+            return f"(ECallTable (EVar {cstr(n.func.id)}) {expr(a[0], c, subst)})"
+        if fsrc in c.tables and not a and len(n.keywords) == 1 and n.keywords[0].arg is None and isinstance(n.func, ast.Name):
+            # f(**kwargs) for an uninterpreted function f of the keyword dict
+            return f"(ECallTable (EVar {cstr(n.func.id)}) {expr(n.keywords[0].value, c, subst)})"
+        if fsrc == "sorted" and len(a) == 1 and n.keywords and n.keywords[0].arg == "key" and isinstance(n.keywords[0].value, ast.Lambda):
+            lam = n.keywords[0].value
+            rev = [k for k in n.keywords[1:]]
+            if len(lam.args.args) == 1 and isinstance(lam.body, ast.Attribute) and isinstance(lam.body.value, ast.Name) \
+                    and lam.body.value.id == lam.args.args[0].arg and len(rev) <= 1 \
+                    and all(k.arg == "reverse" and isinstance(k.value, ast.Constant) and isinstance(k.value.value, bool) for k in rev):
+                r = "true" if rev and rev[0].value.value else "false"
+                return f"(ESortAttr {expr(a[0], c, subst)} {cstr(lam.body.attr)} {r})"
+        if fsrc == "all" and len(a) == 1 and not n.keywords and isinstance(a[0], ast.GeneratorExp) and len(a[0].generators) == 1:
+            g = a[0].generators[0]
+            if isinstance(g.target, ast.Name) and not g.ifs and not g.is_async:
+                return f"(EAll {expr(a[0].elt, c, subst)} {cstr(g.target.id)} {expr(g.iter, c, subst)})"
         if fsrc == "argparse.Namespace" and not a and len(n.keywords) == 1 and n.keywords[0].arg is None \
                 and isinstance(n.keywords[0].value, ast.Name) and n.keywords[0].value.id in c.views:
             return f"(EVar {cstr(c.views[n.keywords[0].value.id])})"      # a new Namespace with the same attributes
@@ -262,21 +283,40 @@ def _pop_call(v):
         and len(v.args) in (1, 2) and (isinstance(v.func.value, ast.Name) or True)
 
 
-def _has_own_continue(body):
-    """A `continue` of THIS loop: not inside a nested loop."""
+def _has_own(body, kind):
+    """A `continue` / `break` of THIS loop: not inside a nested loop."""
     for s in body:
-        if isinstance(s, ast.Continue):
+        if isinstance(s, kind):
             return True
-        if isinstance(s, ast.If) and (_has_own_continue(s.body) or _has_own_continue(s.orelse)):
+        if isinstance(s, ast.If) and (_has_own(s.body, kind) or _has_own(s.orelse, kind)):
             return True
     return False
+
+
+def _has_own_continue(body):
+    return _has_own(body, ast.Continue)
 
 
 def stmt4(s, c: Ctx, subst):
     if isinstance(s, ast.ImportFrom):
         return []                                            # a local import binds a name only
+    if unparse(s) in c.skip_stmts:
+        return []
+    if isinstance(s, ast.AnnAssign) and s.value is None and isinstance(s.target, ast.Name):
+        return []                                            # a bare annotation `x: T` binds nothing
     if isinstance(s, ast.Continue):
         return ["SContinue"]
+    if isinstance(s, ast.Break):
+        return ["SBreak"]
+    if isinstance(s, ast.For) and isinstance(s.target, ast.Name) and (s.orelse or _has_own(s.body, ast.Break)):
+        c.note(s.target.id)
+        return [f"SForBE {cstr(s.target.id)} {expr(s.iter, c, subst)} [{'; '.join(block(s.body, c, subst))}] [{'; '.join(block(s.orelse, c, subst))}]"]
+    if isinstance(s, ast.For) and _has_own(s.body, ast.Break):
+        raise Unrecognised("break in a loop with several targets")
+    if isinstance(s, ast.Assign) and len(s.targets) == 1 and isinstance(s.targets[0], ast.Name) and isinstance(s.value, ast.Call) \
+            and isinstance(s.value.func, ast.Name) and s.value.func.id in c.procs and s.targets[0].id not in subst:
+        c.note(s.targets[0].id)
+        return [proc_call(s.value, c, subst, ret=s.targets[0].id)]
     if isinstance(s, ast.Return) and s.value is None:
         return ["SReturn ENone"]
     # X = vars(Y): X is the live view of Y - ONE variable
@@ -343,13 +383,12 @@ def stmt4(s, c: Ctx, subst):
             c.note(s.target.id)
             return [f"SForC {cstr(s.target.id)} {expr(s.iter, c, subst)} [{'; '.join(block(s.body, c, subst))}]"]
     # a call of a dumped procedure: f(p1=a1, ...) as a statement
-    if isinstance(s, ast.Expr) and isinstance(s.value, ast.Call) and isinstance(s.value.func, ast.Name) and s.value.func.id in c.procs \
-            and not s.value.args:
+    if isinstance(s, ast.Expr) and isinstance(s.value, ast.Call) and isinstance(s.value.func, ast.Name) and s.value.func.id in c.procs:
         return [proc_call(s.value, c, subst)]
     return None
 
 
-def proc_call(call, c: Ctx, subst) -> str:
+def proc_call(call, c: Ctx, subst, ret=None) -> str:
     fn, cc, self_arg = c.procs[call.func.id]
     params = [a.arg for a in fn.args.posonlyargs + fn.args.args]
     if fn.args.vararg or fn.args.kwarg or fn.args.kwonlyargs:
@@ -358,6 +397,11 @@ def proc_call(call, c: Ctx, subst) -> str:
     given = {}
     if self_arg is not None:
         given[params[0]] = call.func
+    free = [p for p in params if p not in given]
+    if len(call.args) > len(free) or any(isinstance(a, ast.Starred) for a in call.args):
+        raise Unrecognised(f"call of {fn.name}: positional arguments")
+    for p, a in zip(free, call.args):
+        given[p] = a
     for kw in call.keywords:
         if kw.arg is None or kw.arg not in params or kw.arg in given:
             raise Unrecognised(f"call of {fn.name}: keyword {kw.arg}")
@@ -387,6 +431,8 @@ def proc_call(call, c: Ctx, subst) -> str:
             outs.append((p, x))
     ins_txt = "; ".join(f"({cstr(p)}, {expr(a, c, subst)})" for p, a in ins)
     outs_txt = "; ".join(f"({cstr(p)}, {cstr(x)})" for p, x in outs)
+    if ret is not None:
+        return f"SCallRet {cstr(ret)} [{'; '.join(body)}] [{ins_txt}] [{outs_txt}]"
     return f"SCall [{'; '.join(body)}] [{ins_txt}] [{outs_txt}]"
 
 
@@ -530,6 +576,8 @@ def _fresh_list(v) -> bool:
         return True
     if isinstance(v, ast.Call):
         f = unparse(v.func)
+        if isinstance(v.func, ast.Attribute) and v.func.attr == "pop" and len(v.args) == 1 and not v.keywords:
+            return True                           # x = d.pop(k): the object leaves its container
         return f in ("sorted", "list") or (isinstance(v.func, ast.Attribute) and v.func.attr in ("split", "copy") and not v.args)
     return False
 
@@ -570,6 +618,10 @@ def mutated_names(body, c: Ctx, views=None) -> dict:
             for kw in n.keywords:
                 if kw.arg in inner and _vname(kw.value, c):
                     add(_vname(kw.value, c), inner[kw.arg])
+            prm = [a.arg for a in fn.args.posonlyargs + fn.args.args][(1 if self_arg is not None else 0):]
+            for pname, a in zip(prm, n.args):
+                if pname in inner and _vname(a, c):
+                    add(_vname(a, c), inner[pname])
     return out
 
 
@@ -636,6 +688,8 @@ def alias_check(body, c: Ctx, extra=()) -> None:
                     src_name = _vname(v.func.value, c)
                     if src_name is None:
                         bad(direct, "is a shallow copy of an expression and objects inside it are mutated")
+                    if src_name == direct:
+                        continue                  # x = x.copy(): the original is not reachable by name any more
                     for m in ast.walk(root):
                         if isinstance(m, (ast.Name, ast.Attribute)) and _vname(m, c) == src_name and m is not v.func.value \
                                 and getattr(m, "lineno", 0) >= n.lineno:
@@ -676,7 +730,7 @@ def alias_check(body, c: Ctx, extra=()) -> None:
         if isinstance(p, ast.Call):
             f = unparse(p.func)
             if node in p.args:
-                if f in _CONSUMING_CALLS or f in c.prims:
+                if f in _CONSUMING_CALLS or f in c.prims or (isinstance(p.func, ast.Name) and p.func.id in c.procs):
                     return True
                 if isinstance(p.func, ast.Attribute) and p.func.attr in ("extend", "join"):
                     return True
@@ -687,6 +741,8 @@ def alias_check(body, c: Ctx, extra=()) -> None:
             call = parent.get(p)
             if isinstance(call, ast.Call) and isinstance(call.func, ast.Name) and call.func.id in c.procs:
                 return True                 # an argument of a dumped procedure: proc_call checks the callee with this parameter as mutated
+            if isinstance(call, ast.Call) and unparse(call.func) in c.tables and p.arg is None:
+                return True                 # f(**kwargs) of an uninterpreted pure function: the dict itself is not kept
             if isinstance(call, ast.Call) and unparse(call.func) == "argparse.Namespace" and p.arg is None:
                 return True                 # Namespace(**view): a new object
             return False
@@ -714,11 +770,33 @@ def alias_check(body, c: Ctx, extra=()) -> None:
             return True
         return False
 
+    # mutate-then-freeze: a name that is bound to a fresh object, mutated only by statements that directly follow the binding in
+    # the same block, and stored / passed on only after its last mutation (every later round of an enclosing loop starts with the
+    # binding again) is not shared while it changes
+    def frozen_after_mutation(nm):
+        blocks = [b for n in ast.walk(root) for b in (getattr(n, "body", None), getattr(n, "orelse", None)) if isinstance(b, list)]
+        for b in blocks:
+            idx = [i for i, st in enumerate(b) if isinstance(st, (ast.Assign, ast.AnnAssign)) and getattr(st, "value", None) is not None
+                   and any(_vname(t, c) == nm for t in (st.targets if isinstance(st, ast.Assign) else [st.target]))]
+            if len(idx) != 1:
+                continue
+            bi = idx[0]
+            inside = {id(m) for st in b for m in ast.walk(st)}
+            if any(isinstance(m, (ast.Name, ast.Attribute)) and _vname(m, c) == nm and id(m) not in inside for m in ast.walk(root)):
+                return False                # used outside this block
+            muts = [i for i, st in enumerate(b) if nm in mutated_names([st], c, views)]
+            keeps = [i for i, st in enumerate(b) if i != bi and any(
+                isinstance(m, (ast.Name, ast.Attribute)) and isinstance(getattr(m, "ctx", None), ast.Load) and _vname(m, c) == nm
+                and not (isinstance(parent.get(m), ast.Attribute) and _vname(parent[m], c) in mutated) and not consumed(m, nm)
+                for m in ast.walk(st))]
+            return all(bi < i for i in muts) and (not keeps or not muts or max(muts) < min(keeps))
+        return False
+
     for n in ast.walk(root):
         if isinstance(n, (ast.Name, ast.Attribute)) and isinstance(getattr(n, "ctx", None), ast.Load):
             nm = _vname(n, c)
             if nm in mutated and not (isinstance(parent.get(n), ast.Attribute) and _vname(parent[n], c) in mutated):
-                if not consumed(n, nm):
+                if not consumed(n, nm) and not frozen_after_mutation(nm):
                     bad(nm, f"its object is stored or passed on in `{unparse(parent.get(n))[:60]}`")
 
 
